@@ -232,6 +232,12 @@ func call(op string, x, y *resources.Resource, ratio int64) (outcome, error) {
 		return R(resources.Add(x, y))
 	case "Sub":
 		return R(resources.Sub(x, y))
+	case "AddTo": // in place: the result is the receiver afterwards
+		x.AddTo(y)
+		return R(x)
+	case "SubFrom":
+		x.SubFrom(y)
+		return R(x)
 	case "SubOnlyExisting":
 		return R(resources.SubOnlyExisting(x, y))
 	case "AddOnlyExisting":
@@ -290,6 +296,7 @@ func call(op string, x, y *resources.Resource, ratio int64) (outcome, error) {
 	return outcome{}, fmt.Errorf("unknown operator %q", op)
 }
 
+var inPlace = map[string]bool{"Prune": true, "AddTo": true, "SubFrom": true}
 var unary = map[string]bool{"StrictlyGreaterThanZero": true, "IsZero": true, "IsEmpty": true, "HasNegativeValue": true, "Clone": true, "Prune": true}
 
 // Runner accumulates the results of a replay.
@@ -452,8 +459,8 @@ func (rn *Runner) runVector(c Case, raw string) (err error) {
 			rn.report(m)
 		}
 	}
-	// the arguments must be unchanged (Prune changes its receiver by contract)
-	if c.Op != "Prune" && !sameRes(fromReal(ax), x) {
+	// the arguments must be unchanged (Prune, AddTo and SubFrom change their receiver by contract)
+	if !inPlace[c.Op] && !sameRes(fromReal(ax), x) {
 		m := mk("modified")
 		m.Got, m.Detail = fromReal(ax).show(), "first argument / receiver modified"
 		rn.report(m)
